@@ -11,6 +11,15 @@ BASELINE = ("cd /repo && /venv/bin/python -m pytest -ra -q -p no:cacheprovider -
 
 # pid -> (category, text, design_ref, level_note, technique)
 CLAIMED = {
+ "C08": ("fault_enumeration",
+         "spec/Hostile.tla lays valid frames (write, read, bundle, register, forward open) out as named parts -- every length, count, offset, "
+         "size and type field of every nesting level -- and enumerates part x operator mutation plans (zero, +-1, max, drop, dup, "
+         "bit flip, truncate after/inside, insert) at three session points; plus seeded random octets, splices and bit flips; each "
+         "runs against the real server (virtual socket) under a watchdog; TLC (HostileTrace) checks the contract: finished in "
+         "time, well-framed replies only, closed at the end, tag shapes intact, a tag changed only by an acknowledged / intact "
+         "write, a following session served correctly.",
+         "5/C08", "TCP sessions only (the UDP path is not driven: seeded change C08-2 is missed); byte-level fuzz is sampling; a failing bundle may have executed well-formed member writes",
+         "TLC-enumerated structure-aware mutation plans + seeded fuzz replayed on the real server; contract decided by TLC trace spec"),
  "C17": ("exploration",
          "spec/Times.tla (integer microseconds): TLC checks the order law on a window of instants around a second boundary, the zone "
          "law for forward/backward transitions, Parse(Format(d)) = d over boundary durations, and emits vectors: the real timestamp "
